@@ -7,6 +7,12 @@ props = [json.loads(l)["id"] for l in open(os.path.join(V, "properties.jsonl"))]
 
 TECH = "bounded symbolic execution of the real Go SSA of /repo (own executor, fork of go/ssa/interp) with z3 deciding every path's assertions; counterexamples replayed natively"
 claimed = {
+ "C01": ("5/C01", "One issuing step through the real GenerateArtifacts/BuildCertBody/Sign with key algorithms, signature algorithm, DN bytes and extension order drawn symbolically; the harness verifies the signature with the algorithm named by the emitted OID under the key parsed from the issuer certificate, compares DN bytes and key identifiers, and demands an error for a key-type mismatch. Hierarchies follow by induction over issuing steps.",
+         "ideal signature scheme and collision-free hashes instead of real crypto; Database double"),
+ "C02": ("5/C02", "On every certificate of the C01 harness the structure emitted through the DER model is compared with the RFC 5280 skeleton built by independent helpers; algorithm identifiers and the serial-number range (all values below the real snMax, all positive int64) are decided by the solver.",
+         "encoding/asn1 leaf encoders are executed, not proved canonical; independent-parser acceptance and re-encoding stability are outside the claim"),
+ "C05": ("5/C05", "Exhaustive symbolic run over the 15 x 9 keyAlgorithm x signatureAlgorithm configurations against RFC reference tables.",
+         "key generation stubs record the curve / size they were asked for"),
  "C06": ("5/C06", "The real pipeline behind the YAML front end (initCertificate, parseExtensions, commonExtensionHandler via emulated reflection, readRawString with the real base64 code, BuildCertBody, Sign) is executed with raw payload bytes and critical flags symbolic; order, OID, flag and value of every emitted extension are asserted.",
          "harness starts at the typed v1 structs (no YAML/JSON-schema); ideal signature scheme; fixed clock and serial"),
  "C07": ("5/C07", "Each structured extension's Builder and constructor are executed with symbolic content (flags, name bytes, octets, path length, OID arcs, qualifier members, key-id bytes) and the emitted value is compared byte for byte with a reference DER encoding written from RFC 5280/6960 (X.690 helpers independent of encoding/asn1).",
